@@ -386,26 +386,41 @@ def clause5_handshake(ctx, P, cg):
             maj_gt1 = v.has_atom(lambda a, p: a[0] == "cmp" and (Q.bitfield_of(P, a[2]) or ("", ""))[1] == "http_major" or Q.mentions(a[2] if a[0] == "cmp" else a, lambda x: x[0] == "field" and x[3] == "http_major"))
             okh = okh and maj_gt1
     ctx.ob("C12.5 R-GATE", hv, "http>=1.1", okh, "HTTP version acceptance does not depend on http_major/http_minor")
-    # key recorded before 101: the 101 site (or the digest computation) must be control dependent on state that only the
-    # key callback's success path writes
-    key_state = set()
+    # required headers recorded before 101: the 101 site (or the digest computation) must be control dependent on state
+    # that only the success path of that header's value callback writes (RFC 6455 4.2.1: key and version are required)
     hvf = P.fn("websocket.c:websocket_upgrade_on_header_value")
-    for f in (sk, hvf):
-        for i in f.all_insts():
-            if i.op == "store":
-                t = P.term(f, i.a[1])
-                if t[0] == "field" and t[2] == "struct.websocket":
-                    key_state.add(t[3])
-    key_state -= {"current_header_field", "protocol_requested"}
-    dep = False
-    for f, site in ((sur, wv), (hc, sc)):
-        for (atom, pol) in Q.guards_of(P, f, site.block):
-            if Q.mentions(atom, lambda x: x[0] == "field" and x[2] == "struct.websocket" and x[3] in key_state):
-                dep = True
-    ctx.ob("C12.5 R-GATE", hc, "101:key-seen", dep,
-           "nothing records that a Sec-WebSocket-Key header was received: a request without the key header is upgraded with a "
-           "digest over an empty key (RFC 6455 4.2.1 requires the key)" if not dep else "101 depends on key state %s" % sorted(key_state))
-    ctx.floor("C12.5 R-GATE", 6)
+    sw = [i for i in hvf.all_insts() if i.op == "switch"]
+    if len(sw) != 1:
+        raise AnalysisBroken("websocket_upgrade_on_header_value: header dispatch switch not found")
+    sw = sw[0]
+    for hname, what, checker in (("HEADER_SEC_WEBSOCKET_KEY", "key", "save_websocket_key"),
+                                 ("HEADER_SEC_WEBSOCKET_VERSION", "version", "check_websocket_version")):
+        hval = Q.enum(P, hname)
+        tgt = [blk for (cv, blk) in sw.cases if cv == hval]
+        if hval is None or len(tgt) != 1:
+            raise AnalysisBroken("header dispatch: case %s not found" % hname)
+        state = set()
+        guarded = True
+        for i in hvf.all_insts():
+            if i.op == "store" and hvf.dominates(tgt[0], i.block):
+                t = P.term(hvf, i.a[1])
+                if t[0] == "field" and t[2] == "struct.websocket" and t[3] != "current_header_field":
+                    state.add(t[3])
+
+                    def succeeded(atom, pol, checker=checker):
+                        return atom[0] == "cmp" and atom[3] == ("const", 0) and Q.mentions(atom[2], lambda x: Q.is_call_to(x, checker)) and Q._poleq(atom, pol)
+                    if not Q.must_pass(P, hvf, i.block, succeeded):
+                        guarded = False
+        dep = False
+        for f, site in ((sur, wv), (hc, sc)):
+            for (atom, pol) in Q.guards_of(P, f, site.block):
+                if Q.mentions(atom, lambda x: x[0] == "field" and x[2] == "struct.websocket" and x[3] in state):
+                    dep = True
+        ctx.ob("C12.5 R-GATE", hc, "101:%s-seen" % what, dep and guarded,
+               ("nothing records that a valid Sec-WebSocket-%s header was received (state written only when %s() succeeded, tested before "
+                "the 101): a request without that header is upgraded (RFC 6455 4.2.1 requires it)" % (what.capitalize(), checker))
+               if not (dep and guarded) else "101 depends on %s state %s" % (what, sorted(state)))
+    ctx.floor("C12.5 R-GATE", 7)
 
 
 def clause7_scanners(ctx, P):
